@@ -404,7 +404,13 @@ func (e *Exec) addressOf(st *State, x ast.Expr) Term {
 			}
 		}
 	case *ast.IndexExpr:
-		// &s[i] for slices of structs: unsupported (no interior pointers in the model)
+		// &s[i] for slices of structs: the element object's reference
+		if sl, ok := types.Unalias(e.typeOf(y.X)).Underlying().(*types.Slice); ok && isObjElem(sl.Elem()) {
+			sv := e.eval(st, y.X)
+			i := e.evalInt(st, y.Index)
+			e.oblige(st, "idx", "", And(Le(IntLit(0), i), Lt(i, SLen(sv))), "index in range: "+e.src(y), y.Pos())
+			return e.elemRef(sv, i)
+		}
 	}
 	e.unsupportedf(x.Pos(), "address-of %T", x)
 	return e.fresh("addr", SInt)
@@ -429,6 +435,13 @@ func (e *Exec) evalBaseRef(st *State, x ast.Expr) (Term, types.Type) {
 	case *ast.Ident:
 		if o, ok := e.info.ObjectOf(y).(*types.Var); ok && e.boxed[o] {
 			return st.vars[o], o.Type()
+		}
+	case *ast.IndexExpr:
+		if sl, ok := types.Unalias(e.typeOf(y.X)).Underlying().(*types.Slice); ok && isObjElem(sl.Elem()) {
+			sv := e.eval(st, y.X)
+			i := e.evalInt(st, y.Index)
+			e.oblige(st, "idx", "", And(Le(IntLit(0), i), Lt(i, SLen(sv))), "index in range: "+e.src(y), y.Pos())
+			return e.elemRef(sv, i), sl.Elem()
 		}
 	case *ast.SelectorExpr:
 		if sel, ok := e.info.Selections[y]; ok && sel.Kind() == types.FieldVal {
